@@ -274,7 +274,8 @@ def tree_strategy():
         "data_sub": st.tuples(st.sampled_from(["", "data", "x/y"]), st.sampled_from(["", "data"]), st.sampled_from(["", "sub"])),
         "dot": st.tuples(st.booleans(), st.booleans(), st.booleans()),   # spell relative paths with a leading ./
         "cwd": st.sampled_from(["root", "maindir", "elsewhere"]),
-        "entry": st.sampled_from(["parse_path-abs", "parse_path-rel", "--cfg-abs", "--cfg-rel"]),
+        "entry": st.sampled_from(["parse_path-abs", "parse_path-rel", "--cfg-abs", "--cfg-rel", "default_config_files"]),
+        "append": st.booleans(),                                      # main.yaml also appends the data file to a list with an append key (more+)
         "missing": st.sampled_from([None, None, "main", "inner", "deep", "deep-config"]),
         "listfile": st.sampled_from([None, "yaml-list", "lines"]),   # main.yaml also names a *list file* (enable_path) in the deep directory
         "decoys": st.booleans(),                                      # same relative spellings exist next to the entry config and in the cwd
@@ -347,17 +348,18 @@ def run_tree(ctx, case):
                         with open(pth, "w") as f:
                             f.write("decoy")
         with open(main_cfg, "w") as f:
-            f.write(f"file: {sp[0]}\ninner: {ref_inner}\n" + (f"files: {rel(dm, list_cfg)}\n" if case.get("listfile") else ""))
+            f.write(f"file: {sp[0]}\ninner: {ref_inner}\n" + (f"files: {rel(dm, list_cfg)}\n" if case.get("listfile") else "") + (f"more+: [{sp[0]}]\n" if case.get("append") else ""))
         cwd = {"root": root, "maindir": dm, "elsewhere": os.path.join(root, "elsewhere")}[case["cwd"]]
         os.chdir(cwd)
         entry = main_cfg if case["entry"].endswith("abs") else rel(cwd, main_cfg)
-        p = ArgumentParser(exit_on_error=False)
+        p = ArgumentParser(exit_on_error=False, **({"default_config_files": [main_cfg]} if case["entry"] == "default_config_files" else {}))
         p.add_argument("--cfg", action="config")
         p.add_argument("--file", type=Path_fr)
         p.add_argument("--inner", type=Inner)
         from typing import List
 
         p.add_argument("--files", type=List[Path_fr], enable_path=True, default=[])
+        p.add_argument("--more", type=List[Path_fr], default=[])
         ctx.cls("entry:" + case["entry"])
         if case.get("listfile"):
             ctx.cls("listfile:" + case["listfile"])
@@ -365,7 +367,10 @@ def run_tree(ctx, case):
         if len({dm, di, dd}) >= 2:
             ctx.mark_nontrivial()
         try:
-            cfg = p.parse_path(entry) if case["entry"].startswith("parse_path") else p.parse_args(["--cfg", entry])
+            if case["entry"] == "default_config_files":
+                cfg = p.parse_args([])
+            else:
+                cfg = p.parse_path(entry) if case["entry"].startswith("parse_path") else p.parse_args(["--cfg", entry])
             outcome = "ok"
         except ArgumentError as ex:
             outcome, msg = "rejected", str(ex)
@@ -397,6 +402,10 @@ def run_tree(ctx, case):
                         ctx.finding(f"C19/tree/wrong-file-content/{which}", {"got": g.get_content()})
                 except Exception as ex:  # noqa
                     ctx.finding(f"C19/tree/get_content-raises/{which}", {"error": fmt_exc(ex)})
+        if case.get("append"):
+            ctx.cls("append-key")
+            if len(cfg.more) != 1 or os.path.realpath(cfg.more[0].absolute) != os.path.realpath(data[0][1]):
+                ctx.finding("C19/tree/append-key-path-not-resolved-against-the-directory-of-the-file-that-mentions-it", {"got": short([x.absolute for x in cfg.more], 300), "expected": data[0][1], "cwd": cwd})
         if case.get("listfile"):
             if len(cfg.files) != 2:
                 ctx.finding("C19/tree/list-file-not-expanded", {"files": short(cfg.files, 200)})
